@@ -112,9 +112,19 @@ Ltac const_ascii := apply asciib_ok; vm_compute; reflexivity.
 
 Lemma ascii_nl : ascii nl. Proof. const_ascii. Qed.
 
+(* \uXXXX: backslash, u, zero padding, lower-case hex digits *)
+Lemma esc_u4_ascii c : ascii (esc_u4 c).
+Proof.
+  unfold esc_u4. cbv zeta. apply ascii_app; [|apply ascii_app].
+  - unfold c_backslash. apply ascii_cons; [reflexivity|]. apply ascii_cons; [reflexivity|].
+    apply ascii_nil.
+  - apply Forall_forall. intros y Hy. apply repeat_spec in Hy. subst y. reflexivity.
+  - apply hex_of_N_ascii.
+Qed.
+
 Create HintDb asc.
 #[local] Hint Resolve ascii_nil ascii_app ascii_cons ascii_nl dec_of_N_ascii hex_of_N_ascii
-  esc_unicode_ascii : asc.
+  esc_unicode_ascii esc_u4_ascii : asc.
 #[local] Hint Extern 1 (_ < 128) => reflexivity : asc.
 #[local] Hint Extern 1 (ascii sgr_CapturedLeftParenthesis) => const_ascii : asc.
 #[local] Hint Extern 1 (ascii sgr_Caret) => const_ascii : asc.
@@ -389,12 +399,11 @@ Lemma lines_ascii s : ascii s -> Forall ascii (lines s).
 Proof.
   intros H. unfold lines.
   assert (H1 : Forall ascii (split_nl s [])) by (apply split_nl_ascii; [exact H|apply ascii_nil]).
-  set (ls := split_nl s []) in *.
-  assert (H2 : Forall ascii (match rev ls with [] :: r => rev r | _ => ls end)).
-  { destruct (rev ls) as [|[|y l0] r] eqn:E; try exact H1.
-    apply Forall_rev in H1. rewrite E in H1. inversion H1; subst. apply Forall_rev. assumption. }
-  apply Forall_forall. intros l Hl. apply in_map_iff in Hl. destruct Hl as (l0 & <- & Hl0).
-  apply strip_cr_ascii. rewrite Forall_forall in H2. apply H2. exact Hl0.
+  apply Forall_rev in H1. destruct (rev (split_nl s [])) as [|last r]; [constructor|].
+  inversion H1 as [|x0 l0 Hlast Hr]; subst. apply Forall_app. split.
+  - apply Forall_forall. intros l Hl. apply in_map_iff in Hl. destruct Hl as (l0 & <- & Hl0).
+    apply strip_cr_ascii. apply Forall_rev in Hr. rewrite Forall_forall in Hr. apply Hr. exact Hl0.
+  - destruct last; [constructor|]. constructor; [exact Hlast|constructor].
 Qed.
 
 Lemma repeat_str_ascii n s : ascii s -> ascii (repeat_str n s).
@@ -888,7 +897,7 @@ Qed.
 (* the rewrites applied to the whole string in verbose mode (before indentation) *)
 Definition vtrans (s : str) : str :=
   replace_cp c_space [c_backslash; c_space]
-    (flat_map (fun x => if mem_cp x verbose_ws then esc_unicode x else [x])
+    (flat_map (fun x => if mem_cp x verbose_ws then esc_u4 x else [x])
        (replace_cp 35 [c_backslash; 35] (vf_escape s))).
 
 Lemma vtrans_app a b : vtrans (a ++ b) = vtrans a ++ vtrans b.
@@ -936,22 +945,14 @@ Proof.
   destruct (x =? c_nl); [discriminate|apply IH].
 Qed.
 
-Lemma drop_last_empty_cons (x : str) (L : list str) :
-  L <> [] ->
-  match rev (x :: L) with [] :: r => rev r | _ => x :: L end =
-  x :: match rev L with [] :: r => rev r | _ => L end.
-Proof.
-  intros HL. cbn [rev]. destruct (rev L) as [|y r'] eqn:E.
-  - exfalso. apply HL. rewrite <- (rev_involutive L), E. reflexivity.
-  - cbn [app]. destruct y; [|reflexivity]. rewrite rev_unit. reflexivity.
-Qed.
-
 Lemma lines_first A R :
   mem_cp c_nl A = false -> strip_cr A = A -> lines (A ++ c_nl :: R) = A :: lines R.
 Proof.
   intros HA Hs. unfold lines. rewrite split_nl_app by exact HA. change (rev [] ++ A) with A.
-  rewrite drop_last_empty_cons by apply split_nl_nonempty.
-  cbn [map]. rewrite Hs. reflexivity.
+  cbn [rev]. pose proof (split_nl_nonempty R []) as HL.
+  destruct (rev (split_nl R [])) as [|last r] eqn:E.
+  - exfalso. apply HL. rewrite <- (rev_involutive (split_nl R [])), E. reflexivity.
+  - cbn [app]. rewrite rev_unit. cbn [map app]. rewrite Hs. reflexivity.
 Qed.
 
 Lemma join_cons sep x l :
@@ -1003,7 +1004,7 @@ Proof.
 Qed.
 
 (* COUNTEREXAMPLE to the statement with the line break included: with both anchors disabled
-   and an empty body nothing follows the flag line, str::lines drops the final empty piece
+   and an empty body nothing follows the flag line, str::lines drops the empty last piece
    and the join does not re-add the line break: the output is "(?x)" *)
 Definition cex_cfg : cfg :=
   mkCfg 1 1 false false false false false false false false false false false true true true false.
